@@ -22,15 +22,15 @@ Theorem C01_partial : forall O db ban fuel t tmsg ins rows st,
      pp O (rxn (before_pp O db ban fuel (fresh 0 s))) <> None)) (admitted O ins) rows.
 Proof. exact run_solved_validated. Qed.
 
-(* the refutation: an imputed, validated reaction X>>Y is replaced by a template output X>>Z
+(* the refutation: an imputed, validated reaction X>>W.M is replaced by a template output X>>Z
    that the comparator does not find balanced, and the row stays solved *)
 Definition Obad : oracles :=
   {| strip := fun s => s; parse_ok := fun _ => true;
-     decomp := fun s => if String.eqb s "X" then [("C",1);("H",4)]%Z else if String.eqb s "Y" then [("C",1);("H",4)]%Z
+     decomp := fun s => if String.eqb s "X" then [("C",1);("H",4)]%Z else if String.eqb s "W.M" then [("C",1);("H",4)]%Z
                         else if String.eqb s "W" then [("C",1);("H",2)]%Z else [("C",1);("O",1)]%Z;
-     ccount := fun _ => 1%Z;
-     mcs_state := fun _ => (false, ""); impute := fun _ => ImpOk "X>>Y" ["r"];
-     pp := fun s => if String.eqb s "X>>Y" then Some "X>>Z" else None;
+     ccount := fun s => if String.eqb s "M" then 0%Z else 1%Z;
+     mcs_state := fun _ => (false, ""); impute := fun _ => ImpOk "M" ["r"];
+     pp := fun s => if String.eqb s "X>>W.M" then Some "X>>Z" else None;
      confidence := fun _ _ => 1%Z |}.
 Theorem C01_refuted : exists O db ban fuel t tmsg ins rows st r,
   run O db ban fuel t tmsg ins = Done (rows, st) /\ In r rows /\ solved r = true /\ bal O (rxn r) = false.
